@@ -1,6 +1,6 @@
 (** Extraction of the executable models.  Only [ExtrOcamlBasic] is used: [N], [positive],
     [nat] stay the extracted inductive datatypes. *)
-From updog Require Import Prelude LRU Index QParser CacheEval Adapters Files DriverSM Csv CsvBytes Dsn.
+From updog Require Import Prelude LRU Index QParser CacheEval Adapters Files DriverSM Csv CsvBytes Dsn KeyBytes.
 Require Import ExtrOcamlBasic.
 Extraction Language OCaml.
 
@@ -19,10 +19,12 @@ Definition m_prepared_query := prepared_query H_enc.
 Definition m_serve := serve H_enc.
 Definition m_d_run := d_run.
 Definition m_create := create H_enc.
+Definition m_store_nvals (s : store) : N := N.of_nat (size (st_vals s)).
+Definition m_store_count (s : store) : option N := match st_count s with Some (CountOk n) => Some n | _ => None end.
 Definition m_create_bytes := create_bytes H_enc.
 
 Extraction "model.ml" lru_observe m_execute_q m_damage_store
   parse_query format_query subst max_ph norm wf_query
-  m_sql_query m_prepared_query m_serve m_d_run d_init wf_ops m_create normalize_header ingest m_create_bytes csv_read utf8_decode parse_dsn
+  m_sql_query m_prepared_query m_serve m_d_run d_init wf_ops m_create normalize_header ingest m_create_bytes csv_read utf8_decode parse_dsn temp_key temp_key_decode cursor_order count_value value_key m_store_nvals m_store_count
   m_build_store m_open_index m_execute m_get_schema m_add_rows_mem m_add_rows_big
   spec_execute spec_schema.
